@@ -50,6 +50,8 @@ def hashval_vec(X, a, b):
 
 def hat1d_vec(level, index, a, b, x):
     w = b - a
+    if level < 0:      # pseudo level: the constant 1 (used to write linear functions as tensor products)
+        return np.ones_like(np.asarray(x, dtype=float))
     if level == 0:
         return (b - x) / w if index == 0 else (x - a) / w
     h = w / 2 ** level
@@ -132,7 +134,7 @@ def hat_integral(h, a, b):
     v = Fraction(1)
     for d, (l, i) in enumerate(h):
         w = Fraction(b[d]) - Fraction(a[d])
-        v *= w / 2 if l == 0 else w / 2 ** l
+        v *= w if l < 0 else (w / 2 if l == 0 else w / 2 ** l)
     return v
 
 
@@ -145,8 +147,14 @@ class DimWiseRun:
         self.b = np.array([1.0] * D if b is None else b, dtype=float)
         self.boundary = boundary
         self.hats = initial_hats(D, lmin, lmax, boundary) if with_hats else []
+        self.modified_basis = bool(modified_basis)
+        if modified_basis:
+            # modified basis (boundary points off, linear extrapolation): the functions that have to stay exact are the LINEAR functions -
+            # carried as tensor products of the constant 1 (pseudo level -1) and one level-0 boundary function
+            self.hats = [tuple((-1, 0) for _ in range(D))] + [tuple((0, 1) if k == d else (-1, 0) for k in range(D)) for d in range(D)] + \
+                        [tuple((0, 0) if k == d else (-1, 0) for k in range(D)) for d in range(D)]
         self.hats_total = len(self.hats)
-        if max_hats is not None and len(self.hats) > max_hats:
+        if max_hats is not None and len(self.hats) > max_hats and not modified_basis:
             import random as _r
             self.hats = sorted(_r.Random(hat_seed).sample(self.hats, max_hats))
         self.f = make_function(D, self.a, self.b, self.hats)
@@ -172,7 +180,7 @@ class DimWiseRun:
         self.continue_via = continue_via      # 'resume': continue_adaptive_refinement; 'container': a new performSpatiallyAdaptiv call that is handed the
         self.ncont = 0                        # object's own refinement container (documented way to continue); 'mixed': alternating
         self.cfg = dict(D=D, lmin=lmin, lmax=lmax, version=version, rebalancing=rebalancing, boundary=boundary,
-                        margin=self.margin_req, safety=safety, a=list(map(float, self.a)), b=list(map(float, self.b)), extra=dict(extra or {}))
+                        margin=self.margin_req, safety=safety, a=list(map(float, self.a)), b=list(map(float, self.b)), extra=dict(extra or {}), modified_basis=bool(modified_basis))
 
     # ---- driving
     def evaluate(self):
